@@ -93,8 +93,15 @@ func (w *world) syncModel(srcID string, transform func(old *simfs.Node) *simfs.N
 		origin = src.Orig
 	}
 	known := map[string]bool{}
-	for id := range w.snaps {
+	for id, m := range w.snaps {
 		known[id] = true
+		if m.Tree == "" {
+			if raw := w.store.Get(backend.Handle{Type: backend.SnapshotFile, Name: id}); raw != nil {
+				if sn, err := model.DecodeSnapshot(w.key, id, raw); err == nil {
+					m.Tree = sn.Tree
+				}
+			}
+		}
 	}
 	for _, id := range w.snapshotIDs() {
 		if known[id] {
@@ -105,12 +112,16 @@ func (w *world) syncModel(srcID string, transform func(old *simfs.Node) *simfs.N
 		if err != nil || sn.Original == "" {
 			continue
 		}
+		if transform == nil && src.Tree != "" && sn.Tree != src.Tree {
+			// an operation that keeps the tree: a snapshot with another tree descends from a sibling
+			continue
+		}
 		if sn.Original == origin || sn.Original == src.ID {
 			root := src.Root
 			if transform != nil {
 				root = transform(root)
 			}
-			w.snaps[id] = &snapModel{ID: id, Root: root, Orig: sn.Original}
+			w.snaps[id] = &snapModel{ID: id, Root: root, Orig: sn.Original, Tree: sn.Tree}
 		}
 	}
 }
